@@ -1,470 +1,153 @@
-"""C12-R3 (encoder/decoder constant pairing, template field order) and C12-R4 (admissibility guards)."""
-import ast
-import re
+"""C12, second part: what the compiler writes is what the library reads back.
 
+Decided on sweeps (acv/pipeline.py): TZ source text whose Zone and Rule lines range over the encoded quantities is put through
+the compiler by interpreting the compiler's own code (Extractor -> Transformer -> TzDbCollector -> ArduinoGenerator), the C++
+sources it writes are parsed by clang and every rendered entry is read through the IR of the broker accessors, exactly like
+the shipped tables (rules_C12.check_db).  Nothing is assumed about *how* the generator packs a value or the broker unpacks
+it - templates, masks, shifts, biases, helper functions can be rearranged freely on either side; what is decided is that
+every value that gets through the transformer's admission tests comes back from the table as the value in its source line
+(at the granularity the scope keeps), and that the text written for a cell is a constant the member can hold."""
 from .common import AnalysisError
-from . import py, gnf
-from .gnf import Poly, SymExec
+from . import py, pipeline, tzline
 from .cxx import int_type
 
-
-def _single_atom(p):
-    """Poly that is 1*atom (+0) -> atom, else None."""
-    if len(p.t) == 1:
-        (k, v), = p.t.items()
-        if len(k) == 1 and v == 1:
-            return k[0]
-    return None
+QUICK = (('extended', False), ('basic', False))
+THOROUGH = (('extended', False), ('extended', True), ('basic', False), ('basic', True))
+FIELDS = ('at', 'until', 'offset', 'save')
 
 
-def _P(key):
-    return Poly(dict(key))
+class _Sub:
+    """report adaptor: rules_C12.check_db speaks R1-rule / R1-era / R1-info about a database; here the same findings are R3
+    findings about a sweep"""
+
+    def __init__(self, R, sw):
+        self.R, self.sw, self.cfg = R, sw, R.cfg
+        self.analysed = {}
+        self.n = 0
+
+    def _c(self, c):
+        return 'sweep[%s]:%s' % (self.sw.label, c.split('::', 1)[-1])
+
+    def rule(self, *a, **k):
+        pass
+
+    def note(self, *a, **k):
+        pass
+
+    def instance(self, rid, c, loc, note=None, **k):
+        self.n += 1
+        self.R.instance('R3', self._c(c), loc)
+
+    def violation(self, rid, c, loc, msg, detail=None, **k):
+        self.R.violation('R3', self._c(c), loc, '[%s] the compiler writes an entry that the broker reads back differently from its source line: %s' % (self.sw.label, msg),
+                         detail=detail)
 
 
-def _cxx_summary(lib, qual, params):
-    f = lib.fn(qual)
-    sx = SymExec(fold_global=lib.global_value)
-    s = sx.run(qual, f.body, {})
-    rets = [p for p in s.paths if p[1] == 'return']
-    if len(rets) != 1 or len(s.paths) != 1:
-        raise AnalysisError('%s: %s is expected to be a single-expression decoder' % (f.loc, qual))
-    return f, _P(rets[0][2])
+def _norm(s):
+    return ' '.join((s or '').split())
 
 
-def _linear(p):
-    lin = p.linear_in()
-    if lin is None:
-        return None
-    return lin
-
-
-def decoder_constants(lib, R):
-    """Constants of the C++ decoders, derived from their *value tables*: each decoder is folded through its real body
-    (constant propagation, typed: every conversion and read wraps to its width) over its whole argument domain - all 256
-    byte values of the packed argument, a spread of code values - and fitted to the affine / mask form the encoder pairs
-    with.  How the body spells the form (&, %, shifts before or after masking, operand order, named locals) is immaterial;
-    a body that is not of the form is reported with the first argument values where it deviates."""
-    from .ceval import CEval
-    d = {}
-    ev = CEval(lib)
-
-    memo = {}
-
-    def fold(f, *args):
-        k = (f.name, args)
-        if k not in memo:
-            try:
-                memo[k] = ev.call(f, None, args)
-            except Exception as ex:
-                raise AnalysisError('%s: decoder cannot be folded on %r (%s)' % (f.loc, args, ex))
-        return memo[k]
-
-    def mask_of(g, width=8):
-        """g: byte -> int is  (x & MASK) scaled: returns MASK when g(x) == g(x & MASK) and bits outside do not matter"""
-        m = 0
-        for b in range(width):
-            if any(g(x) != g(x ^ (1 << b)) for x in range(1 << width)):
-                m |= 1 << b
-        return m
-    # timeCodeToMinutes(code, modifier) = K*code + (modifier & mm)
-    f = lib.fn('ace_time::internal::timeCodeToMinutes')
-    d['time_loc'] = f.loc
-    base = fold(f, 0, 0)
-    K = fold(f, 1, 0) - base
-    mm = mask_of(lambda m: fold(f, 0, m))
-    bad = None
-    for c in (0, 1, 2, 47, 95, 96, 100, 127):
-        for m in range(256):
-            if fold(f, c, m) != K * c + (m & mm):
-                bad = (c, m, fold(f, c, m), K * c + (m & mm))
-                break
-        if bad:
-            break
-    if bad is None and base == 0 and K > 0 and gnf.is_pow2(mm + 1):
-        d['time_K'], d['time_minute_mod'] = K, mm + 1
-    else:
-        d['time_form'] = 'timeCodeToMinutes(%s, %s) = %s, not %s' % bad if bad else 'K = %d, minute mask 0x%02x' % (K, mm)
-    # toSuffix(modifier) = modifier & MASK
-    f = lib.fn('ace_time::internal::toSuffix')
-    d['suffix_loc'] = f.loc
-    sm = mask_of(lambda m: fold(f, m))
-    bad = next(((m, fold(f, m)) for m in range(256) if fold(f, m) != (m & sm)), None)
-    if bad is None:
-        d['suffix_mask'] = sm
-    else:
-        d['suffix_form'] = 'toSuffix(%d) = %d, not %d' % (bad[0], bad[1], bad[0] & sm)
-    # extended::toDeltaMinutes(deltaCode) = K*((deltaCode & dm) - B)     (deltaCode is the stored signed byte)
-    f = lib.fn('ace_time::extended::toDeltaMinutes')
-    d['delta_loc'] = f.loc
-    dom = list(range(-128, 128))
-    g = lambda x: fold(f, x if x < 128 else x - 256)
-    dm = mask_of(g)
-    K = g(1) - g(0)
-    bad = None
-    if K and g(0) % K == 0:
-        B = -g(0) // K
-        bad = next(((x, fold(f, x)) for x in dom if fold(f, x) != K * (((x & 0xff) & dm) - B)), None)
-        if bad is None and gnf.is_pow2(dm + 1):
-            d['delta_K'], d['delta_mod'], d['delta_bias'] = K, dm + 1, B
-    if 'delta_K' not in d:
-        d['delta_form'] = ('toDeltaMinutes(%d) = %d' % bad) if bad else 'step %d, value at 0 %d, mask 0x%02x' % (K, g(0), dm)
-    # extended::toOffsetMinutes(offsetCode, deltaCode) = K*offsetCode + ((deltaCode & MASK) >> S)
-    f = lib.fn('ace_time::extended::toOffsetMinutes')
-    d['offset_loc'] = f.loc
-    K = fold(f, 1, 0) - fold(f, 0, 0)
-    h = lambda x: fold(f, 0, x if x < 128 else x - 256)
-    om = mask_of(h)
-    bad = None
-    if om and K > 0 and fold(f, 0, 0) == 0:
-        S = om & -om            # lowest set bit: the shift divisor
-        for c in (-48, -1, 0, 1, 56):
-            for x in dom:
-                if fold(f, c, x) != K * c + (((x & 0xff) & om) // S):
-                    bad = (c, x, fold(f, c, x))
-                    break
-            if bad:
-                break
-        if bad is None:
-            d['offset_K'], d['offset_shift_div'], d['offset_mask'] = K, S, om
-    if 'offset_K' not in d:
-        d['offset_form'] = ('toOffsetMinutes(%d, %d) = %d' % bad) if bad else 'step %d, mask 0x%02x' % (K, om)
-    # basic brokers: K * code, read through the broker from a one-field record
-    from .ceval import Obj
-    from .rules_C12 import typed_obj, broker_field
-    for acc, key, struct, field in (('ace_time::basic::ZoneRuleBroker::deltaMinutes', 'basic_rule_delta_K', 'ZoneRule', 'deltaCode'),
-                                    ('ace_time::basic::ZoneEraBroker::deltaMinutes', 'basic_era_delta_K', 'ZoneEra', 'deltaCode'),
-                                    ('ace_time::basic::ZoneEraBroker::offsetMinutes', 'basic_era_offset_K', 'ZoneEra', 'offsetCode')):
-        f = lib.fn(acc)
-        d[key + '_loc'] = f.loc
-        bq = acc.rsplit('::', 1)[0]
-        bf = broker_field(lib, bq)
-        vals = {}
-        try:
-            for code in (-8, -1, 0, 1, 2, 7, 56):
-                cells = {n: 0 for n, _t, _x in lib.fields('ace_time::basic::' + struct)}
-                cells[field] = code
-                vals[code] = ev.call(f, Obj({bf: typed_obj(lib, 'ace_time::basic::' + struct, cells)}), ())
-        except Exception as ex:
-            d[key + '_form'] = 'cannot be folded (%s)' % ex
+def sweep_checks(cfg, R, lib, sw):
+    from . import rules_C12
+    T = sw.T
+    sub = _Sub(R, sw)
+    rules_C12.check_db(cfg, sub, lib, T)
+    # the recorded line beside an entry is the source line it came from (else the comparison above is against something else)
+    src = sw.source
+    lines_of_zone = {pipeline_name: [_norm(x) for x in v] for pipeline_name, v in src['zones'].items()}
+    all_rule_lines = {_norm(x) for v in src['rules'].values() for x in v}
+    c0 = 'sweep[%s]:recorded-lines' % sw.label
+    n = 0
+    for short in T.infos:
+        name = T.zone_name(short)
+        eras = T.zone_eras(short)
+        want = lines_of_zone.get(name)
+        R.instance('R3-src', c0, T.infos[short].loc)
+        n += 1
+        if want is None:
+            R.violation('R3-src', c0, T.infos[short].loc, '[%s] the rendered zone %r is not a zone of the source' % (sw.label, name))
             continue
-        K = vals[1] - vals[0]
-        if vals[0] == 0 and K and all(v == K * c for c, v in vals.items()):
-            d[key] = K
-        else:
-            d[key + '_form'] = 'values %r' % vals
-    return d
-
-
-def _template_expr(fstr_atom):
-    """('fstr', parts) whose constant parts spell a C++ arithmetic expression with holes ->
-    (python ast of the expression with holes named v0, v1..., [hole Poly keys])."""
-    parts = fstr_atom[1]
-    text = ''
-    holes = []
-    for k in parts:
-        p = _P(k)
-        a = _single_atom(p)
-        if a is not None and a[0] == 'str':
-            text += a[1]
-        else:
-            text += ' v%d ' % len(holes)
-            holes.append(p)
-    try:
-        tree = ast.parse(text.strip(), mode='eval')
-    except SyntaxError:
-        return None, holes, text
-    return tree.body, holes, text
-
-
-def _lin_of_template(node, nholes):
-    """linear form {hole index: coef}, const of an arithmetic template (+, -, *, <<, parentheses)."""
-    if isinstance(node, ast.Constant) and isinstance(node.value, int):
-        return {}, node.value
-    if isinstance(node, ast.Name) and re.match(r'^v\d+$', node.id):
-        return {int(node.id[1:]): 1}, 0
-    if isinstance(node, ast.UnaryOp) and isinstance(node.op, (ast.UAdd, ast.USub)):
-        l = _lin_of_template(node.operand, nholes)
-        if l is None:
-            return None
-        s = 1 if isinstance(node.op, ast.UAdd) else -1
-        return {k: s * v for k, v in l[0].items()}, s * l[1]
-    if isinstance(node, ast.BinOp):
-        l = _lin_of_template(node.left, nholes)
-        r = _lin_of_template(node.right, nholes)
-        if l is None or r is None:
-            return None
-        if isinstance(node.op, (ast.Add, ast.Sub)):
-            s = 1 if isinstance(node.op, ast.Add) else -1
-            t = dict(l[0])
-            for k, v in r[0].items():
-                t[k] = t.get(k, 0) + s * v
-            return t, l[1] + s * r[1]
-        if isinstance(node.op, ast.LShift) and not r[0]:
-            m = 1 << r[1]
-            return {k: v * m for k, v in l[0].items()}, l[1] * m
-        if isinstance(node.op, ast.Mult) and not r[0]:
-            return {k: v * r[1] for k, v in l[0].items()}, l[1] * r[1]
-        if isinstance(node.op, ast.Mult) and not l[0]:
-            return {k: v * l[1] for k, v in r[0].items()}, r[1] * l[1]
-    return None
-
-
-def _py_summary(mod, name):
-    f = mod.fn(name)
-    sx = SymExec(lang='py')
-    sx.tables = mod.table_elems          # `for a, b in SOME_TABLE:` over a module-level constant table is unrolled
-    return f, sx.run(name, f.body, {})
-
-
-def _div_consts(p, tags):
-    """constants c of atoms tag(x, c) found anywhere inside Poly p (recursively)."""
-    out = []
-
-    def rec_key(k):
-        rec(_P(k))
-
-    def rec(q):
-        for a in q.atoms():
-            if a[0] in tags:
-                c = _P(a[2])
-                if c.is_const():
-                    out.append((a[0], c.const_value(), a))
-                rec_key(a[1])
-            elif a[0] == 'fn':
-                for x in a[2]:
-                    if isinstance(x, tuple) and x and x[0] == 'kw':
-                        rec_key(x[2])
-                    else:
-                        rec_key(x)
-            elif a[0] in ('init', 'fstr'):
-                for x in a[-1]:
-                    rec_key(x)
-            elif a[0] == 'proj':
-                rec_key(a[2])
-    rec(p)
-    return out
+        got = [_norm(e.comment) for e in eras]
+        # eras before start_year / after until_year may be dropped: what is rendered must be a contiguous run of the source eras
+        ok = any(want[i:i + len(got)] == got for i in range(0, len(want) - len(got) + 1)) if got else False
+        if not ok:
+            R.violation('R3-src', c0, T.infos[short].loc, '[%s] zone %s: the lines recorded beside its eras are %s, the source has %s' % (sw.label, name, got, want))
+    for arr, entries in T.rules.items():
+        for e in entries:
+            line = _norm(e.comment)
+            if line.startswith('Anchor:'):
+                line = _norm(line[len('Anchor:'):])
+            R.instance('R3-src', c0, e.loc)
+            n += 1
+            if line not in all_rule_lines:
+                R.violation('R3-src', c0, e.loc, '[%s] %s[%d]: the recorded line %r is not a Rule line of the source' % (sw.label, arr, e.index, e.comment))
+    # R5: the constant written for a cell fits the member it initialises (brace initialisation rejects anything else)
+    worst = {}
+    for struct, coll in (('ZoneRule', T.rules), ('ZoneEra', T.eras)):
+        fields = {n_: int_type(t_) for n_, t_ in T.struct_fields[struct]}
+        for arr, entries in coll.items():
+            for e in entries:
+                for fn, it in fields.items():
+                    if it is None or not isinstance(e.cells.get(fn), int):
+                        continue
+                    # the constant as written, before the conversion to the member's type
+                    nd = e.nodes.get(fn)
+                    while nd is not None and nd.get('kind') in ('ImplicitCastExpr', 'ConstantExpr', 'ParenExpr', 'ExprWithCleanups') and nd.get('inner'):
+                        nd = nd['inner'][-1]
+                    v = T.tu.fold_node(nd) if nd is not None else None
+                    if not isinstance(v, int) or isinstance(v, bool):
+                        continue
+                    lo, hi = (-(1 << (it[0] - 1)), (1 << (it[0] - 1)) - 1) if it[1] else (0, (1 << it[0]) - 1)
+                    key = '%s::%s::%s' % (sw.scope, struct, fn)
+                    R.instance('R5', key + ':fits', e.loc)
+                    if not (lo <= v <= hi) and key not in worst:
+                        worst[key] = (e, v, lo, hi, it)
+    for key, (e, v, lo, hi, it) in sorted(worst.items()):
+        R.violation('R5', key + ':fits', e.loc, '[%s] %s[%d] (%s): the generator writes the constant %d for a member of type %sint%d_t (range %d..%d): the braced '
+                    'initialiser is ill-formed (narrowing), so the generated table does not compile' % (
+                        sw.label, e.owner, e.index, _norm(e.comment), v, '' if it[1] else 'u', it[0], lo, hi))
+    return sub.n + n
 
 
 def encoder_rules(cfg, R, lib):
     ar = py.load(cfg, 'tools/zonedb/argenerator.py')
     tr = py.load(cfg, 'tools/tzdb/transformer.py')
-    R.analysed['python_modules'] = [ar.rel, tr.rel]
-    R.rule('R3', 'encoder (argenerator.py) and decoder (Brokers.h) use paired constants, units, masks and biases', floor=14)
-    D = decoder_constants(lib, R)
-
-    def ob(construct, loc, ok, msg):
-        R.instance('R3', construct, loc)
-        if not ok:
-            R.violation('R3', construct, loc, msg)
-
-    # decoders have the recognised normal forms
-    ob('ace_time::internal::timeCodeToMinutes', D['time_loc'], 'time_K' in D,
-       'decoder is not K*code + (modifier mod M): %s' % D.get('time_form'))
-    ob('ace_time::internal::toSuffix', D['suffix_loc'], 'suffix_mask' in D, 'decoder is not modifier & MASK: %s' % D.get('suffix_form'))
-    ob('ace_time::extended::toDeltaMinutes', D['delta_loc'], 'delta_K' in D, 'decoder is not K*((code mod M) - B): %s' % D.get('delta_form'))
-    ob('ace_time::extended::toOffsetMinutes', D['offset_loc'], 'offset_K' in D,
-       'decoder is not K*offsetCode + ((deltaCode & MASK) >> S): %s' % D.get('offset_form'))
-    for k in ('basic_rule_delta_K', 'basic_era_delta_K', 'basic_era_offset_K'):
-        ob(k, D[k + '_loc'], k in D, 'basic decoder is not K*code: %s' % D.get(k + '_form'))
-    if any(k not in D for k in ('time_K', 'suffix_mask', 'delta_K', 'offset_K', 'basic_rule_delta_K', 'basic_era_delta_K', 'basic_era_offset_K')):
-        return
-    # mask layout inside the modifier / deltaCode bytes
-    mm = D['time_minute_mod'] - 1
-    ob('modifier-byte-layout', D['suffix_loc'], gnf.is_pow2(mm + 1) and (mm & D['suffix_mask']) == 0 and (mm | D['suffix_mask']) == 0xff,
-       'minute mask 0x%02x and suffix mask 0x%02x do not partition the modifier byte' % (mm, D['suffix_mask']))
-    dm = D['delta_mod'] - 1
-    ob('deltaCode-byte-layout', D['offset_loc'],
-       gnf.is_pow2(dm + 1) and (dm & D['offset_mask']) == 0 and (dm | D['offset_mask']) == 0xff and D['offset_mask'] == dm * D['offset_shift_div'],
-       'delta mask 0x%02x, offset-minute mask 0x%02x and shift divisor %d do not partition the deltaCode byte' % (dm, D['offset_mask'], D['offset_shift_div']))
-    for scope in ('basic', 'extended'):
-        vals = {s: lib.const('ace_time::%s::ZoneContext::kSuffix%s' % (scope, s)) for s in 'WSU'}
-        ob('%s::ZoneContext::kSuffix*' % scope, D['suffix_loc'],
-           len(set(vals.values())) == 3 and all((v & mm) == 0 and (v & D['suffix_mask']) == v for v in vals.values()),
-           'suffix constants %r are not distinct values inside the suffix mask 0x%02x' % (vals, D['suffix_mask']))
-    # -- _to_code_and_modifier
-    f, s = _py_summary(ar, '_to_code_and_modifier')
-    c = 'zonedb.argenerator._to_code_and_modifier'
-    sec = f.params[0]
-    paths = [p for p in s.paths if p[1] == 'return']
-    ok = len(paths) == 2
-    msg = 'expected two return paths (with and without a minute remainder)'
-    if ok:
-        for g, _k, r, _e in paths:
-            a = _single_atom(_P(r))
-            if a is None or a[0] != 'init' or len(a[2]) != 2:
-                ok, msg = False, 'does not return (code, modifier)'
-                break
-            code = _single_atom(_P(a[2][0]))
-            if not (code and code[0] == 'fn' and code[1] == 'div_to_zero' and _P(code[2][1]).is_const()):
-                ok, msg = False, 'time code is not div_to_zero(seconds, D): %r' % _P(a[2][0])
-                break
-            Dcode = _P(code[2][1]).const_value()
-            if Dcode != 60 * D['time_K']:
-                ok, msg = False, 'time code divisor %d s is not 60 * %d (decoder multiplies the code by %d minutes)' % (Dcode, D['time_K'], D['time_K'])
-                break
-            modp = _P(a[2][1])
-            fs = [x for x in modp.atoms() if x[0] == 'fstr']
-            if not fs:
-                # the path that emits no remainder: its guard must force the remainder to be zero
-                rem_key = Poly.atom(('fdiv', Poly.atom(('fmod', Poly.atom(('sym', sec)).key(), Poly.const(Dcode).key())).key(), Poly.const(60).key())).key()
-                leak = None
-                for val in gnf.valuations([g]):
-                    if not val.eval(g):
-                        continue
-                    reg = val.regions.get(rem_key)
-                    if reg is None or (reg[0] == 'pt' and reg[1] != 0) or (reg[0] == 'gap' and (reg[2] is None or reg[2] > 0)):
-                        leak = val.describe()
-                        break
-                if leak is not None:
-                    ok, msg = False, ('the modifier is emitted without the minute remainder on a path where the remainder (seconds mod %d) // 60 '
-                                      'can be non-zero (%s): such a time reads back rounded down to the quarter hour' % (Dcode, leak))
-                    break
-            if fs:
-                tree, holes, text = _template_expr(fs[0])
-                lin = _lin_of_template(tree, len(holes)) if tree is not None else None
-                # the emitted text is "<modifier> + {timeMinute}": unary plus parses as +v0
-                # ... or, when the whole modifier is one template, "<suffix constant> + <minute>" with the suffix as a hole
-                rems = [h for h in holes if _single_atom(h) is not None and _single_atom(h)[0] == 'fdiv']
-                rest = [h for h in holes if h not in rems]
-                rest_ok = all(_single_atom(h) is not None and _single_atom(h)[0] == 'fn' and _single_atom(h)[1].endswith('_to_modifier') for h in rest)
-                if tree is None or len(rems) != 1 or not rest_ok or lin is None or any(v != 1 for v in lin[0].values()) or lin[1] != 0:
-                    ok, msg = False, 'minute remainder is not appended as " + <minute>" (%r)' % text
-                    break
-                rem = rems[0]
-                ra = _single_atom(rem)
-                good = (ra is not None and ra[0] == 'fdiv' and _P(ra[2]).const_value() == 60)
-                inner = _single_atom(_P(ra[1])) if good else None
-                good = good and inner is not None and inner[0] == 'fmod' and _P(inner[2]).const_value() == Dcode \
-                    and _P(inner[1]) == Poly.atom(('sym', sec))
-                if not good:
-                    ok, msg = False, 'minute remainder is %r, not (seconds mod %d) // 60' % (rem, Dcode)
-                    break
-                if Dcode // 60 - 1 > mm:
-                    ok, msg = False, 'minute remainder ranges over 0..%d but the decoder keeps only modifier & 0x%02x' % (Dcode // 60 - 1, mm)
-                    break
-    ob(c, f.loc, ok, msg)
-    # -- _to_modifier: 'w'->kSuffixW ...
-    f, s = _py_summary(ar, '_to_modifier')
-    c = 'zonedb.argenerator._to_modifier'
-    pairs = {}
-    for g, k, r, _e in s.paths:
-        if k != 'return':
+    R.analysed['python_modules'] = [ar.rel, tr.rel, pipeline.EX, pipeline.CO]
+    R.rule('R3', 'sweep: every era and rule the interpreted compiler emits is read back through the brokers as the value of its source line '
+                 '(STDOFF at the granularity of the scope, SAVE / RULES offsets in quarter hours, AT / UNTIL to the minute with their suffix, years, days, letters)', floor=400)
+    R.rule('R3-src', 'sweep: the line recorded beside a rendered entry is the source line it was made from', floor=150)
+    R.rule('R5', 'every constant the generator writes fits the C++ member it initialises', floor=100)
+    thorough = cfg.tier == 'thorough'
+    total = 0
+    for scope, strict in (THOROUGH if thorough else QUICK):
+        try:
+            sw = pipeline.sweep(cfg, scope, strict)
+        except pipeline.Raised as r_:
+            for rid in ('R3', 'R3-src', 'R5'):      # nothing is written, nothing can be read back: every sweep rule fails here
+                R.instance(rid, 'sweep[%s%s]:compile' % (scope, ',strict' if strict else ''), tr.fn('Transformer.transform').loc)
+                R.violation(rid, 'sweep[%s%s]:compile' % (scope, ',strict' if strict else ''), tr.fn('Transformer.transform').loc, '%s' % r_.what)
             continue
-        a = _single_atom(_P(r))
-        txt = ''.join(_single_atom(_P(x))[1] for x in a[1] if _single_atom(_P(x)) and _single_atom(_P(x))[0] == 'str') if a and a[0] == 'fstr' else ''
-        lits = [x[1] for at in gnf.formula_atoms(g) if at[0] == 'atom' for x in _P(at[1]).atoms() if x[0] == 'str']
-        m = re.search(r'kSuffix(\w)', txt)
-        # the positive literal of this path is the last equality tested
-        pos = _positive_literal(g)
-        if m and pos:
-            pairs[pos] = m.group(1)
-    ob(c, f.loc, pairs == {'w': 'W', 's': 'S', 'u': 'U'}, 'suffix letters map to %r, expected w->W, s->S, u->U' % pairs)
-    # -- extended delta code
-    f, s = _py_summary(ar, '_to_extended_delta_code')
-    c = 'zonedb.argenerator._to_extended_delta_code'
-    ok, msg = False, 'not a single "(seconds // D + B)" template'
-    if len(s.paths) == 1 and s.paths[0][1] == 'return':
-        a = _single_atom(_P(s.paths[0][2]))
-        if a and a[0] == 'fstr':
-            tree, holes, text = _template_expr(a)
-            lin = _lin_of_template(tree, len(holes)) if tree is not None else None
-            if lin and len(holes) == 1 and lin[0] == {0: 1}:
-                h = _single_atom(holes[0])
-                if h and h[0] in ('fdiv',) and _P(h[2]).is_const():
-                    Dd = _P(h[2]).const_value()
-                    B = lin[1]
-                    if Dd != 60 * D['delta_K']:
-                        msg = 'delta divisor %d s is not 60 * %d' % (Dd, D['delta_K'])
-                    elif B != D['delta_bias']:
-                        msg = 'encoder adds a bias of %d, decoder subtracts %d' % (B, D['delta_bias'])
-                    else:
-                        ok = True
-                else:
-                    msg = 'delta code is %r, not seconds // D' % holes[0]
-    ob(c, f.loc, ok, msg)
-    # -- extended offset and delta
-    f, s = _py_summary(ar, '_to_extended_offset_and_delta')
-    c = 'zonedb.argenerator._to_extended_offset_and_delta'
-    ok, msg = False, 'not a single (offsetCode, "(minute << S) + delta") return'
-    if len(s.paths) == 1 and s.paths[0][1] == 'return':
-        a = _single_atom(_P(s.paths[0][2]))
-        if a and a[0] == 'init' and len(a[2]) == 2:
-            oc = _single_atom(_P(a[2][0]))
-            dc = _single_atom(_P(a[2][1]))
-            osec = f.params[0]
-            if not (oc and oc[0] == 'fdiv' and _P(oc[1]) == Poly.atom(('sym', osec)) and _P(oc[2]).is_const()):
-                msg = 'offsetCode is %r, not offsetSeconds // D (floor)' % _P(a[2][0])
-            elif _P(oc[2]).const_value() != 60 * D['offset_K']:
-                msg = 'offset divisor %d s is not 60 * %d' % (_P(oc[2]).const_value(), D['offset_K'])
-            elif not (dc and dc[0] == 'fstr'):
-                msg = 'deltaCode is not rendered as an expression template'
-            else:
-                Do = _P(oc[2]).const_value()
-                tree, holes, text = _template_expr(dc)
-                lin = _lin_of_template(tree, len(holes)) if tree is not None else None
-                if not lin or len(holes) != 2 or lin[1] != 0:
-                    msg = 'deltaCode template %r is not "(minute << S) + base"' % text
-                else:
-                    # which hole is the minute remainder
-                    idx = [i for i, h in enumerate(holes) if _single_atom(h) and _single_atom(h)[0] == 'fdiv']
-                    if len(idx) != 1:
-                        msg = 'no minute remainder in the deltaCode template'
-                    else:
-                        i = idx[0]
-                        h = _single_atom(holes[i])
-                        inner = _single_atom(_P(h[1]))
-                        if not (_P(h[2]).const_value() == 60 and inner and inner[0] == 'fmod'
-                                and _P(inner[2]).const_value() == Do and _P(inner[1]) == Poly.atom(('sym', osec))):
-                            msg = 'offset minute is %r, not (offsetSeconds mod %d) // 60 (non-negative remainder paired with the floor quotient)' % (holes[i], Do)
-                        elif lin[0].get(i) != D['offset_shift_div']:
-                            msg = 'encoder shifts the minute by a factor %r, decoder divides by %d' % (lin[0].get(i), D['offset_shift_div'])
-                        elif lin[0].get(1 - i) != 1:
-                            msg = 'base delta code enters with coefficient %r' % lin[0].get(1 - i)
-                        elif (Do // 60 - 1) * D['offset_shift_div'] > D['offset_mask']:
-                            msg = 'offset minute 0..%d does not fit mask 0x%02x' % (Do // 60 - 1, D['offset_mask'])
-                        else:
-                            base = _single_atom(holes[1 - i])
-                            if not (base and base[0] == 'fn' and base[1] == '_to_extended_delta_code'):
-                                msg = 'base delta code is %r, not _to_extended_delta_code(deltaSeconds)' % holes[1 - i]
-                            else:
-                                ok = True
-                                fits = (lin[0][i], Do // 60 - 1, lin[0][1 - i])
-    ob(c, f.loc, ok, msg)
-    # R5: the emitted initializer is a constant expression of type int; brace initialisation of the member rejects a
-    # constant outside the member's range (C++11 narrowing), so the largest value the template can spell must fit
-    R.rule('R5', 'every value the deltaCode template can spell fits the C++ member it initialises', floor=1)
-    c5 = 'zonedb.argenerator._to_extended_offset_and_delta:deltaCode-range'
-    R.instance('R5', c5, f.loc)
-    if ok:
-        mty = None
-        for n_, t_, _node in lib.fields('ace_time::extended::ZoneEra'):
-            if n_ == 'deltaCode':
-                mty = int_type(t_)
-        if mty is None:
-            raise AnalysisError('extended::ZoneEra::deltaCode: member or its integer type not found (anchor moved)')
-        shift, max_minute, kbase = fits
-        max_base = D['delta_mod'] - 1            # the low nibble the decoder keeps
-        hi = shift * max_minute + kbase * max_base
-        thi = (1 << (mty[0] - 1)) - 1 if mty[1] else (1 << mty[0]) - 1
-        first_bad = next((mnt for mnt in range(max_minute + 1) if shift * mnt > thi), None)
-        if hi > thi:
-            R.violation('R5', c5, f.loc, 'the template "(minute << 4) + base" spells values up to %d (minute 0..%d, base 0..%d) but extended::ZoneEra::deltaCode is %sint%d_t '
-                        '(max %d): for a standard offset whose minute remainder is %s or more the generated zone_infos.cpp is ill-formed (narrowing in a braced '
-                        'initialiser) - the table cannot be compiled, let alone read back' % (
-                            hi, max_minute, max_base, '' if mty[1] else 'u', mty[0], thi, first_bad))
-    # -- basic scope: div_to_zero(x, 900) in the two item generators
-    for fn_name, keys in (('ZoneInfosGenerator._generate_era_item', ('basic_era_offset_K', 'basic_era_delta_K')),
-                          ('ZonePoliciesGenerator._generate_policy_item', ('basic_rule_delta_K',))):
-        f = ar.fn(fn_name)
-        calls = [n for n in ast.walk(f.node) if isinstance(n, ast.Call) and isinstance(n.func, ast.Name) and n.func.id == 'div_to_zero']
-        c = 'zonedb.argenerator.' + fn_name
-        K = {D[k] for k in keys}
-        bad = [ast.unparse(n) for n in calls if not (len(n.args) == 2 and py.fold(cfg, ar, n.args[1]) in {60 * k for k in K})]
-        ob(c, f.loc, len(calls) >= len(keys) and not bad and len(K) == 1,
-           'basic-scope codes %s are not seconds / (60 * %s)' % (bad or [ast.unparse(n) for n in calls], sorted(K)))
-    # -- years
-    f = ar.fn('to_tiny_year')
+        total += sweep_checks(cfg, R, lib, sw)
+    if thorough:
+        # one field at a time over its whole admissible range
+        for scope in ('extended', 'basic'):
+            for field in FIELDS:
+                if scope == 'basic' and field == 'until':
+                    continue            # basic zones carry a year-only UNTIL: there is no UNTIL time to sweep
+                text = pipeline.field_sweep_text(scope, field)
+                try:
+                    sw = pipeline.sweep(cfg, scope, False, text=text, tag=field)
+                except pipeline.Raised as r_:
+                    for rid in ('R3', 'R3-src', 'R5'):
+                        R.instance(rid, 'sweep[%s,%s]:compile' % (scope, field), tr.fn('Transformer.transform').loc)
+                        R.violation(rid, 'sweep[%s,%s]:compile' % (scope, field), tr.fn('Transformer.transform').loc, '%s' % r_.what)
+                    continue
+                total += sweep_checks(cfg, R, lib, sw)
+    R.analysed['sweep entries read back'] = total
+    # -- years: to_tiny_year interpreted (E-SEQ over the Python ast) on every year a rule can carry
     c = 'zonedb.argenerator.to_tiny_year'
+    f = ar.fn('to_tiny_year')
+    R.instance('R3', c, f.loc)
     consts = {n: py.const_value(cfg, ar, n) for n in ('EPOCH_YEAR', 'MAX_YEAR', 'MAX_YEAR_TINY', 'MIN_YEAR', 'MIN_YEAR_TINY',
                                                        'MAX_UNTIL_YEAR', 'MAX_UNTIL_YEAR_TINY')}
     cpp = {'epoch': lib.const('ace_time::LocalDate::kEpochYear'),
@@ -472,8 +155,6 @@ def encoder_rules(cfg, R, lib):
            'max_until_tiny': lib.const('ace_time::basic::ZoneEra::kMaxUntilYearTiny'),
            'xmax_tiny': lib.const('ace_time::extended::ZoneRule::kMaxYearTiny'),
            'xmax_until_tiny': lib.const('ace_time::extended::ZoneEra::kMaxUntilYearTiny')}
-    # interpreted (E-SEQ over the Python ast) on every year a rule can carry: the two sentinels map to their tiny sentinels,
-    # every other year to year - EPOCH_YEAR
     from .pyeval import PyEval, Raised as _PRaised
     pev = PyEval(cfg)
     ok, msg = True, ''
@@ -495,181 +176,5 @@ def encoder_rules(cfg, R, lib):
             ok, msg = False, 'MAX_UNTIL_YEAR_TINY=%r but ZoneEra::kMaxUntilYearTiny=%r/%r' % (consts['MAX_UNTIL_YEAR_TINY'], cpp['max_until_tiny'], cpp['xmax_until_tiny'])
         elif not (-128 < consts['MIN_YEAR_TINY'] and consts['MAX_UNTIL_YEAR_TINY'] <= 127):
             ok, msg = False, 'tiny-year sentinels leave the int8 range'
-    ob(c, f.loc, ok, msg)
-    template_rules(cfg, R, lib, ar)
-    admissibility_rules(cfg, R, lib, ar, tr, D)
-
-
-def _positive_literal(g):
-    """string literal of the (single) non-negated equality atom in a conjunction."""
-    pos = []
-
-    def rec(f, neg):
-        if f[0] == 'and':
-            rec(f[1], neg)
-            rec(f[2], neg)
-        elif f[0] == 'not':
-            rec(f[1], not neg)
-        elif f[0] == 'atom' and not neg:
-            for x in _P(f[1]).atoms():
-                if x[0] == 'str':
-                    pos.append(x[1])
-    rec(g, False)
-    return pos[0] if len(pos) == 1 else None
-
-
-def formula_pos(g):
-    return gnf.formula_str(g)
-
-
-# -- template field order == struct member order (aggregate initialisation is positional) --------
-
-TEMPLATES = [
-    ('ZonePoliciesGenerator', 'ZONE_POLICIES_CPP_RULE_ITEM', 'ZoneRule', None),
-    ('ZoneInfosGenerator', 'ZONE_INFOS_CPP_ERA_ITEM', 'ZoneEra', None),
-]
-
-
-def template_rules(cfg, R, lib, ar):
-    R.rule('R3-order', 'cell order of the generator templates equals the member order of the C++ structs', floor=4)
-    for cls, tname, struct, _ in TEMPLATES:
-        node = ar.class_const(cls, tname)
-        if not (isinstance(node, ast.Constant) and isinstance(node.value, str)):
-            raise AnalysisError('anchor moved: %s.%s is not a string template' % (cls, tname))
-        text = node.value
-        # the aggregate body is the text between the first '{{' and the matching '}}'
-        i = text.find('{{')
-        j = text.rfind('}}')
-        if i < 0 or j < i:
-            raise AnalysisError('anchor moved: %s.%s has no aggregate body' % (cls, tname))
-        body = text[i + 2:j]
-        cells = [c.strip() for c in re.sub(r'/\*.*?\*/', '', body).split(',')]
-        cells = [c for c in cells if c]
-        holes = []
-        for c_ in cells:
-            m = re.findall(r'\{(\w+)\}', c_)
-            holes.append(m[0] if m else c_)
-        for scope in ('basic', 'extended'):
-            fields = [n for n, _t, _x in lib.fields('ace_time::%s::%s' % (scope, struct))]
-            c = 'zonedb.argenerator.%s.%s~%s::%s' % (cls, tname, scope, struct)
-            R.instance('R3-order', c, ar.loc(node), ', '.join(holes))
-            if holes != fields:
-                R.violation('R3-order', c, ar.loc(node), 'template cells %s do not match struct members %s' % (holes, fields))
-
-
-# -- R4: admissibility -----------------------------------------------------------------------------
-
-def _range_guards(fn):
-    """[(variable, lo, hi, If node)] for tests of the shape `v < lo or v > hi` in fn."""
-    out = []
-
-    def bound(x):
-        """one comparison of a name with an integer -> (name, 'lo'|'hi', value): the test is true below lo / above hi"""
-        if not (isinstance(x, ast.Compare) and len(x.ops) == 1):
-            return None
-        l, op, r = x.left, x.ops[0], x.comparators[0]
-        if isinstance(l, ast.Name) and _int(r) is not None:
-            name, c, flip = l.id, _int(r), False
-        elif isinstance(r, ast.Name) and _int(l) is not None:
-            name, c, flip = r.id, _int(l), True
-        else:
-            return None
-        kind = type(op)
-        if flip:
-            kind = {ast.Lt: ast.Gt, ast.Gt: ast.Lt, ast.LtE: ast.GtE, ast.GtE: ast.LtE}.get(kind)
-        if kind is ast.Lt:
-            return name, 'lo', c
-        if kind is ast.LtE:
-            return name, 'lo', c + 1
-        if kind is ast.Gt:
-            return name, 'hi', c
-        if kind is ast.GtE:
-            return name, 'hi', c - 1
-        return None
-    for n in ast.walk(fn.node):
-        if not isinstance(n, ast.If):
-            continue
-        t = n.test
-        if isinstance(t, ast.BoolOp) and isinstance(t.op, ast.Or) and len(t.values) == 2:
-            bs = [bound(x) for x in t.values]
-            if all(bs) and bs[0][0] == bs[1][0] and {bs[0][1], bs[1][1]} == {'lo', 'hi'}:
-                d = {k: v for _n, k, v in bs}
-                out.append((bs[0][0], d['lo'], d['hi'], n))
-        elif isinstance(t, ast.UnaryOp) and isinstance(t.op, ast.Not) and isinstance(t.operand, ast.Compare) and len(t.operand.ops) == 2 \
-                and all(isinstance(o, ast.LtE) for o in t.operand.ops) and isinstance(t.operand.comparators[0], ast.Name):
-            # not (lo <= v <= hi)
-            lo, hi = _int(t.operand.left), _int(t.operand.comparators[1])
-            if lo is not None and hi is not None:
-                out.append((t.operand.comparators[0].id, lo, hi, n))
-    return out
-
-
-def _int(n):
-    if isinstance(n, ast.Constant) and isinstance(n.value, int):
-        return n.value
-    if isinstance(n, ast.UnaryOp) and isinstance(n.op, ast.USub) and isinstance(n.operand, ast.Constant):
-        return -n.operand.value
-    return None
-
-
-def _assigned_expr(fn, var, before):
-    best = None
-    for n in ast.walk(fn.node):
-        if isinstance(n, ast.Assign) and len(n.targets) == 1 and isinstance(n.targets[0], ast.Name) and n.targets[0].id == var \
-                and n.lineno < before.lineno:
-            if best is None or n.lineno > best.lineno:
-                best = n
-    return best.value if best is not None else None
-
-
-def admissibility_rules(cfg, R, lib, ar, tr, D):
-    R.rule('R4', 'the transformer range-tests every encoded quantity against the capacity of its field', floor=3)
-    # STDOFF code within int8
-    f = tr.fn('Transformer._create_zones_with_expanded_offset_string')
-    c = 'tzdb.transformer.Transformer._create_zones_with_expanded_offset_string'
-    gs = _range_guards(f)
-    R.instance('R4', c, f.loc, 'STDOFF code guard')
-    it = int_type(dict((n, t) for n, t, _ in lib.fields('ace_time::basic::ZoneEra'))['offsetCode'])
-    lo_cap, hi_cap = -(1 << (it[0] - 1)), (1 << (it[0] - 1)) - 1
-    ok = False
-    for v, lo, hi, node in gs:
-        ex = _assigned_expr(f, v, node)
-        if isinstance(ex, ast.Call) and isinstance(ex.func, ast.Name) and ex.func.id == 'div_to_zero' and py.fold(cfg, tr, ex.args[1]) == 60 * D['basic_era_offset_K']:
-            if lo >= lo_cap and hi <= hi_cap and _removes(node):
-                ok = True
     if not ok:
-        R.violation('R4', c, f.loc, 'no guard keeps STDOFF / %d s inside [%d, %d] (offsetCode is int8)' % (60 * D['basic_era_offset_K'], lo_cap, hi_cap))
-    # rule SAVE: code + bias inside the delta nibble
-    f = tr.fn('Transformer._create_rules_with_expanded_delta_offset')
-    c = 'tzdb.transformer.Transformer._create_rules_with_expanded_delta_offset'
-    R.instance('R4', c, f.loc, 'SAVE code guard')
-    ok = False
-    for v, lo, hi, node in _range_guards(f):
-        ex = _assigned_expr(f, v, node)
-        if isinstance(ex, ast.BinOp) and isinstance(ex.op, ast.Add) and _int(ex.right) == D['delta_bias'] \
-                and isinstance(ex.left, ast.Call) and getattr(ex.left.func, 'id', None) == 'div_to_zero' \
-                and py.fold(cfg, tr, ex.left.args[1]) == 60 * D['delta_K']:
-            if lo >= 0 and hi <= D['delta_mod'] - 1 and _removes(node):
-                ok = True
-    if not ok:
-        R.violation('R4', c, f.loc, 'no guard keeps SAVE / %d s + %d inside [0, %d] (4-bit delta code)' % (60 * D['delta_K'], D['delta_bias'], D['delta_mod'] - 1))
-    # era fixed RULES delta: same capacity
-    f = tr.fn('Transformer._create_zones_with_rules_expansion')
-    c = 'tzdb.transformer.Transformer._create_zones_with_rules_expansion'
-    R.instance('R4', c, f.loc, 'fixed RULES delta guard')
-    ok = False
-    for v, lo, hi, node in _range_guards(f):
-        ex = _assigned_expr(f, v, node)
-        src = ast.unparse(ex) if ex is not None else ''
-        if 'rules_delta_seconds' in src and lo >= 0 and hi <= D['delta_mod'] - 1 and _removes(node):
-            ok = True
-    if not ok:
-        R.violation('R4', c, f.loc,
-                    'a fixed RULES offset (e.g. "4:00") is never range-tested although it is packed into the same 4-bit '
-                    'delta code as SAVE: "(m << 4) + (seconds // 900 + 4)" overflows into the offset-minute nibble')
-
-
-def _removes(if_node):
-    """the guarded branch records a removal (calls _add_reason) and leaves the loop / marks invalid."""
-    calls = [n for n in ast.walk(if_node) if isinstance(n, ast.Call) and getattr(n.func, 'id', None) == '_add_reason']
-    return bool(calls)
+        R.violation('R3', c, f.loc, msg)
